@@ -22,6 +22,19 @@ var c09Argv = &ArgvCfg{MaxItems: 2, WOpt: 60, WCluster: 10, WCmd: 5, WPlain: 8, 
 type C09Case struct {
 	ParseCase
 	ExecErr bool `json:"exec_err"`
+	// ExecHelp: the error returned by Execute is a *flags.Error of type ErrHelp
+	// (a command printing its own usage) instead of a foreign error
+	ExecHelp bool `json:"exec_help,omitempty"`
+}
+
+func (c *C09Case) wantExecErr() error {
+	switch {
+	case !c.ExecErr:
+		return nil
+	case c.ExecHelp:
+		return errExecHelp
+	}
+	return errExecSentinel
 }
 
 var _ = Register("C09", func() interface{} { return new(C09Case) }, func(c interface{}) string { return c09Oracle(c.(*C09Case)) })
@@ -34,7 +47,8 @@ func genC09(t *rapid.T) *C09Case {
 	c := &C09Case{ParseCase: ParseCase{D: d}}
 	c.Args = genArgv(t, d, c09Argv)
 	c.CmdHandler = rapid.Bool().Draw(t, "cmdhandler")
-	c.ExecErr = rapid.IntRange(0, 3).Draw(t, "execErr") == 0
+	c.ExecErr = rapid.IntRange(0, 2).Draw(t, "execErr") == 0
+	c.ExecHelp = c.ExecErr && rapid.Bool().Draw(t, "execHelp")
 	return c
 }
 
@@ -122,9 +136,7 @@ func c09Check(c *C09Case, args []string, kind string) (string, bool) {
 		return "", false
 	}
 	cfg := &RealCfg{CmdHandler: c.CmdHandler}
-	if c.ExecErr {
-		cfg.ExecErr = errExecSentinel
-	}
+	cfg.ExecErr = c.wantExecErr()
 	rr := RunReal(c.D, args, nil, cfg)
 	if rr.Panic != "" || rr.SetupErr != nil {
 		st.Label("skip: panic or setup error")
@@ -141,7 +153,7 @@ func c09Check(c *C09Case, args []string, kind string) (string, bool) {
 		return "", true
 	}
 	// R: valid vector
-	if rr.Err != nil && !(c.ExecErr && rr.Err == errExecSentinel) {
+	if rr.Err != nil && !(c.ExecErr && rr.Err == c.wantExecErr()) {
 		if len(rr.B.ExecLog) != 0 || len(rr.CmdHand) != 0 {
 			return fmt.Sprintf("[%s] argv %q: parser returned error %v, yet something was executed: %v %v", kind, args, rr.Err, rr.B.ExecLog, rr.CmdHand), false
 		}
@@ -153,10 +165,7 @@ func c09Check(c *C09Case, args []string, kind string) (string, bool) {
 	}
 	if ref.ExecCmd != "" {
 		// its error is returned unchanged
-		var want error
-		if c.ExecErr {
-			want = errExecSentinel
-		}
+		want := c.wantExecErr()
 		if rr.Err != want {
 			return fmt.Sprintf("[%s] argv %q: Execute returned %v but the parser returned %v", kind, args, want, rr.Err), false
 		}
